@@ -107,6 +107,13 @@ def run(ck):
             w = l.split()
             if l.startswith("propfail ") and len(w) >= 3 and w[2] in ("c03_wire_is_concat", "c03_flushed_after"):
                 ck.fail_input("wire_order", l, wcases.get(w[1], []) + [l])
+    # backend stage, directly: Dequeue calls made by a connection that is already dying keep the order of the session's stored queue
+    # across the resume (go/cmd/backend mbdeq; seed C15-9 was caught by the whole-broker runs only by chance)
+    if ck.build_harness("backend"):
+        dpath, _ = ck.harness("mbdeq", out_name="mbdeq_for_c15.txt")
+        for l in open(dpath).read().splitlines():
+            if l.startswith("direct queue_order_across_death") and " FAIL " in l:
+                ck.fail_input("queue_order_across_death", l, [l])
     if ck.tier == "thorough":
         ck.coqchk(["GM.Props.C15"])
     ck.evaluations = sys_eval + ck.stats.get("model_cases", 0)
